@@ -190,7 +190,8 @@ def run(ctx):
         # the race runtime exits with 66 when it reported races: those are handled below
         if rc not in (0, 66):
             m = re.search(r"(panic|fatal error): [^\n]*", log)
-            ctx.violation("%s-run-failed%s" % (k.rstrip("0123456789"), (":" + re.sub(r"0x[0-9a-f]+", "0x?", m.group(0))[:80]) if m else ""),
+            msg = re.sub(r"/\S*/", "", re.sub(r"0x[0-9a-f]+", "0x?", m.group(0)))[:80] if m else ""
+            ctx.violation("%s-run-failed%s" % (k.rstrip("0123456789"), (":" + msg) if m else ""),
                           "phase %s of the harness died (rc=%d): %s" % (k, rc, log[-700:]), {"phase": k, "log": log[-3000:]}, found_input=bool(m))
 
     # ---- correspondence with the extracted model ---------------------------------------------------
